@@ -273,6 +273,11 @@ type caseT struct {
 	// A failure that depends on what earlier runs left behind in the process is
 	// replayed as a SEQUENCE: runs SeqFrom..Index of the seed range BaseSeed, in
 	// one fresh process; the violation must recur at run Index.
+	// A run during which the code under test brought the whole process down
+	// with an unrecoverable runtime error (out of memory, stack overflow):
+	// replayed as run Index of the seed range BaseSeed alone in a fresh process,
+	// which must die the same way.
+	Fatal    bool   `json:"fatal,omitempty"`
 	Sequence bool   `json:"sequence,omitempty"`
 	SeqFrom  int    `json:"sequence_from,omitempty"`
 	BaseSeed uint64 `json:"base_seed,omitempty"`
@@ -340,7 +345,7 @@ func worker(sc *scratch, sp *spec, j *job, tag string, timeout time.Duration) ([
 		return nil, fmt.Errorf("worker %s exceeded its watchdog of %v\n%s", tag, timeout, tail(buf.String(), 4000))
 	}
 	if werr != nil {
-		return nil, fmt.Errorf("worker %s failed: %v\n%s\n[...]\n%s", tag, werr, headOf(buf.String(), 2500), tail(buf.String(), 4000))
+		return nil, fmt.Errorf("worker %s failed: %v\n%s\n[...]\n%s", tag, werr, headOf(buf.String(), 9000), tail(buf.String(), 4000))
 	}
 	f, err := os.Open(j.Out)
 	if err != nil {
@@ -383,6 +388,7 @@ type totals struct {
 	viol      []*caseT
 	samples   []*caseT
 	workerErr error
+	failFrom, failTo int // seed-range of the chunk whose worker died
 }
 
 func (t *totals) add(recs []record) {
@@ -499,6 +505,7 @@ func explore(sc *scratch, sp *spec, tier string, seed uint64, runs, chunk int, d
 				if err != nil {
 					if t.workerErr == nil {
 						t.workerErr = err
+						t.failFrom, t.failTo = c.from, c.to
 					}
 				} else {
 					t.add(recs)
@@ -595,6 +602,13 @@ func runCheck(sp *spec, tier string) int {
 	t := explore(sc, sp, tier, seed, runs, sp.chunk(), deadline, envKnobs())
 	exploreS := time.Since(exploreStart).Seconds()
 	if t.workerErr != nil {
+		if c := localiseFatal(sc, sp, tier, seed, t); c != nil {
+			path := filepath.Join(verifDir, "replays", fmt.Sprintf("%s-%s.json", sp.ID, shortHash(c.Fingerprint)))
+			writeJSON(path, c)
+			fmt.Printf("VIOLATION property=%s replay=%s\n  class: %s\n  fingerprint: %s\n  seed=%d run=%d (a fresh process executing this run alone dies the same way, twice)\n  %s\n",
+				sp.ID, path, c.Class, c.Fingerprint, seed, c.Index, indent(c.Msg))
+			return 1
+		}
 		infra("%v", t.workerErr)
 	}
 	if t.sum.Runs == 0 {
@@ -837,6 +851,15 @@ func sequenceCase(sc *scratch, sp *spec, tier string, v *caseT) *caseT {
 var currentBaseSeed uint64
 
 func replayCase(sc *scratch, sp *spec, tier string, c *caseT) (*caseT, error) {
+	if c.Fatal {
+		j := &job{Property: sp.ID, Mode: "gen", Tier: tier, Seed: c.BaseSeed, From: c.Index, To: c.Index + 1, MaxSteps: c.MaxSteps, Knobs: c.Knobs}
+		_, err := worker(sc, sp, j, fmt.Sprintf("fatalreplay-%d", c.Index), 20*time.Minute)
+		if what, frame := fatalInCode(err); what != "" {
+			return &caseT{Property: c.Property, Class: "fatal-error", Fingerprint: "fatal-error " + what + " in " + frame, EventHash: "fatal:" + what,
+				Msg: "the process died with the unrecoverable runtime error \"" + what + "\" in " + frame}, nil
+		}
+		return &caseT{Property: c.Property, EventHash: "(run " + fmt.Sprint(c.Index) + " did not bring the process down)"}, nil
+	}
 	if c.Sequence {
 		j := &job{Property: sp.ID, Mode: "gen", Tier: tier, Seed: c.BaseSeed, From: c.SeqFrom, To: c.Index + 1, MaxSteps: c.MaxSteps, Knobs: c.Knobs}
 		recs, err := worker(sc, sp, j, fmt.Sprintf("seqreplay-%d-%d", c.SeqFrom, c.Index), 20*time.Minute)
@@ -1109,4 +1132,84 @@ func selftest(ids []string) int {
 		}
 	}
 	return rc
+}
+
+// fatalInCode recognises, in a dead worker's output, an unrecoverable runtime
+// error raised while the code under test was running: the error must be one a
+// program cannot recover from and cannot blame on its environment's scheduling
+// (out of memory on an allocation it asked for, stack overflow), and the
+// innermost non-runtime frame of the goroutine that died must belong to the
+// repository's own non-test code (not the harness, not the simulator).
+// "all goroutines are asleep", watchdog kills, build trouble etc. stay
+// infrastructure trouble.
+func fatalInCode(err error) (what, frame string) {
+	if err == nil {
+		return "", ""
+	}
+	s := err.Error()
+	for _, w := range []string{"fatal error: runtime: out of memory", "fatal error: stack overflow", "runtime: goroutine stack exceeds"} {
+		if strings.Contains(s, w) {
+			what = strings.TrimPrefix(w, "fatal error: ")
+			break
+		}
+	}
+	if what == "" {
+		return "", ""
+	}
+	i := strings.Index(s, "goroutine ")
+	if i < 0 {
+		return "", ""
+	}
+	lines := strings.Split(s[i:], "\n")
+	for k := 1; k+1 < len(lines); k++ {
+		l := strings.TrimSpace(lines[k])
+		if l == "" {
+			break // end of the first (dying) goroutine's stack
+		}
+		if strings.HasPrefix(l, "/") || strings.HasPrefix(l, "runtime.") || strings.HasPrefix(l, "runtime/") || strings.HasPrefix(l, "created by") {
+			continue
+		}
+		// first non-runtime frame: it decides
+		file := strings.TrimSpace(lines[k+1])
+		if strings.HasPrefix(l, xgo+"/") && !strings.Contains(l, "/zsim/") && !strings.Contains(file, "_test.go") {
+			if p := strings.IndexByte(l, '('); p > 0 {
+				l = l[:strings.LastIndexByte(l[:len(l)], '(')]
+			}
+			return what, l
+		}
+		return "", ""
+	}
+	return "", ""
+}
+
+// localiseFatal finds, by bisection over the seed range of the chunk whose
+// worker died, the single run that brings a fresh process down, and confirms it
+// twice. Returns nil when the death is not attributable to the code under test
+// or does not reproduce (then it is infrastructure trouble: exit 2).
+func localiseFatal(sc *scratch, sp *spec, tier string, seed uint64, t *totals) *caseT {
+	if what, _ := fatalInCode(t.workerErr); what == "" || t.failTo <= t.failFrom {
+		return nil
+	}
+	dies := func(from, to int) (string, string) {
+		j := &job{Property: sp.ID, Mode: "gen", Tier: tier, Seed: seed, From: from, To: to, MaxSteps: sp.maxSteps(tier), Knobs: envKnobs()}
+		_, err := worker(sc, sp, j, fmt.Sprintf("fatal-%d-%d", from, to), 20*time.Minute)
+		return fatalInCode(err)
+	}
+	from, to := t.failFrom, t.failTo
+	for to-from > 1 {
+		mid := (from + to) / 2
+		if w, _ := dies(from, mid); w != "" {
+			to = mid
+		} else {
+			from = mid
+		}
+	}
+	w1, f1 := dies(from, to)
+	w2, f2 := dies(from, to)
+	if w1 == "" || w1 != w2 || f1 != f2 {
+		return nil
+	}
+	return &caseT{Property: sp.ID, Engine: "simrt", Seed: seed, BaseSeed: seed, Index: from, Tier: tier, Knobs: envKnobs(), MaxSteps: sp.maxSteps(tier), Fatal: true,
+		Class: "fatal-error", Fingerprint: "fatal-error " + w1 + " in " + f1, EventHash: "fatal:" + w1,
+		Msg: "the process died with the unrecoverable runtime error \"" + w1 + "\" in " + f1 + " (run " + fmt.Sprint(from) + " of the seed range, alone in a fresh process)"}
 }
